@@ -17,7 +17,7 @@ claimed = {
  "C08": "Theorems C08_len (every schedule delivers a verbatim prefix of the next N bytes, consumed = delivered <= N, complete iff N delivered), C08_close_step, C08_close_can_proceed, C08_close_marks, C08_reasons_kept.",
  "C09": "Theorem C09_history (from wf_step: every operation of every typestate on a well-formed flow returns without panic and leaves a well-formed flow; lifted by induction to every call history with arbitrary bytes and buffer sizes), C09_ready (advance succeeds iff the readiness query is true), C09_edges (successor = documented graph), C09_follow_wf; D11 (second as_new_flow) is a recorded finding with an evaluated witness.",
  "C10": "Theorems C10_verdict, C10_initial, C10_step (a reason is recorded after a step iff it was before or the step is exactly one of the three events: non-100 while awaiting, returned response with Connection: close, close-delimited body entered), C10_cap.",
- "C11": "Theorems C11_undecided(_bare), C11_continue, C11_refused_bare, C11_refused_fields (response with >=1 complete field line, any status), C11_proceed (edges incl. converted holder), C11_late (late 100 consumed once).",
+ "C11": "Theorems C11_undecided(_bare), C11_undecided_fields (input ending before the end of the first field line decides nothing, for heads with fields), C11_continue, C11_refused_bare, C11_refused_fields (response with >=1 complete field line, any status), C11_proceed (edges incl. converted holder), C11_late (late 100 consumed once).",
  "C12": "Theorems for ARBITRARY bytes: C12_read (every body framing: error or consumed<=offered, produced<=space, produced is a subsequence of consumed input; decoder never rests in the trailer state), C12_head / C12_partial (no panic outcome, consumed<=offered), plus C09_history for 'state-advancing calls afterwards do not panic'.",
  "C13": "Theorems C13 (every effective header of the request built for a redirect: never cookie / content-length; authorization only under same-host policy with equal host and same-or-https scheme), C13_chain (every hop is rebuilt from the ORIGINAL request, so the comparison is against the original URI at every hop), C13_asNewFlow, C13_cap.",
  "C14": "Theorems C14_current (new URI = resolution of the remembered Location against the CURRENT effective URI), C14_last (last Location field), C14_errors (missing / non-textual / unresolvable => the two error kinds, no panic outcome), C14_wire_line. The resolution function itself is the RFC 3986 section 5.2 algorithm (model = specification); that url::Url::join agrees with it on the stated class is decided by the correspondence (RFC 5.4 examples, base x reference grid, random chains) — partial by construction: the url crate is modelled, not verified.",
